@@ -245,12 +245,15 @@ def sigOfCell (g : C15.Grid) (p : List V3) (ci : Nat) : Sig :=
 inductive HOp where
   | read
   | update (i : Nat) (v : V3)
+  /-- `grid.points[:] = q`: all points overwritten at once, as the smoother writes them (same number of points) -/
+  | setAll (q : List V3)
   deriving Repr
 
 /-- the points after a step -/
 def stepPts (p : List V3) : HOp → List V3
   | .read => p
   | .update i v => p.set i v
+  | .setAll q => if q.length = p.length then q else p
 
 def finalPts (p : List V3) (ops : List HOp) : List V3 := ops.foldl stepPts p
 
@@ -264,6 +267,7 @@ def runHist (g : C15.Grid) : List V3 → List HOp → List (List (Option Float))
   | _, [] => []
   | p, .read :: ops => cellQualities g p :: runHist g p ops
   | p, .update i v :: ops => runHist g (p.set i v) ops
+  | p, .setAll q :: ops => runHist g (stepPts p (.setAll q)) ops
 
 /-- `Junction.quality`: mean of the qualities of the cells at a junction (return value of `update`) -/
 def junctionQuality (g : C15.Grid) (p : List V3) (j : Nat) : Option Float :=
@@ -327,6 +331,7 @@ def handleGrid (args : List String) : Option String :=
 
 def parseHOp? (s : String) : Option HOp :=
   if s == "R" then some .read
+  else if s.startsWith "W" then (C15.parsePts? (s.drop 1).toString).map HOp.setAll
   else if s.startsWith "U" then
     match ((s.drop 1).toString).splitOn ":" with
     | [i, v] => do some (.update (← parseNat? i) (← parseV3? v))
@@ -335,7 +340,8 @@ def parseHOp? (s : String) : Option HOp :=
 
 def showOptF (q : Option Float) : String := match q with | some v => showF v | none => "degenerate"
 
-/-- `c14.hist kind cells points op|op|…` (`R` = read all cells, `Ui:x,y,z` = `grid.update(i, (x,y,z))`) →
+/-- `c14.hist kind cells points op|op|…` (`R` = read all cells, `Ui:x,y,z` = `grid.update(i, (x,y,z))`,
+    `Wp;p;…` = `grid.points[:] = …`) →
     per step: the cell values `a;b;…` of a read, or `J<value>` returned by the update -/
 def handleHist (args : List String) : Option String :=
   match args with
@@ -346,11 +352,13 @@ def handleHist (args : List String) : Option String :=
       let ops ← (ops.splitOn "|").mapM parseHOp?
       let g : C15.Grid := ⟨kind, cells, p.length⟩
       if !C15.wellFormed g then some "reject" else
+      if ops.any (fun op => match op with | .setAll q => q.length != p.length | _ => false) then some "reject" else
       let r := ops.foldl (fun (acc : List V3 × List String) op =>
         let p' := stepPts acc.1 op
         match op with
         | .read => (p', acc.2 ++ [";".intercalate ((cellQualities g p').map showOptF)])
-        | .update i _ => (p', acc.2 ++ ["J" ++ showOptF (junctionQuality g p' i)])) (p, [])
+        | .update i _ => (p', acc.2 ++ ["J" ++ showOptF (junctionQuality g p' i)])
+        | .setAll _ => (p', acc.2 ++ ["W"])) (p, [])
       some ("|".intercalate r.2)
   | _ => none
 
